@@ -6,12 +6,14 @@ import SycVerif.Driver.ListMapDrv
 import SycVerif.Driver.SsrDrv
 import SycVerif.Driver.AsyncDrv
 import SycVerif.Driver.DomDrv
+import SycVerif.Driver.ViewDrv
 /-! Native driver: one request per line on stdin (`<engine> <op> <args…>`), one reply per line. -/
 open SycVerif.Driver
 
 def dispatch (line : String) : String :=
   let line := line.trimAscii.toString
   if line.startsWith "isdyn classify " then IsDynRead.handle (line.drop 15).toString else
+  if line.startsWith "view run " then ViewDrv.handle (line.drop 9).toString else
   if line.startsWith "async " then AsyncDrv.handle (line.drop 6).toString else
   if line.startsWith "ssr " then SsrDrv.handle ("(" ++ (line.drop 4).toString ++ ")") else
   if line.startsWith "reactive run " then ReactiveDrv.handle (line.drop 13).toString else
